@@ -39,6 +39,12 @@ Definition visit_wf (f : fn_def) : bool :=
       && Nat.eqb (List.length (filter is_recursion b)) 1 && Nat.eqb (List.length (filter is_mark b)) 1
       (* the recursive call is nowhere else *)
       && Nat.eqb (List.length (filter (calls_method "visit") b)) 1
+      (* the asset is listed in one place only, and the only ways out before the mark are the two
+         guards (already visited / not in the graph): nothing can be listed without being marked *)
+      && Nat.eqb (List.length (filter (fun e => match e with EMethod (EField _ "list") "push" _ => true | _ => false end)
+                                 (flat_map (subexprs depth_fuel) b))) 1
+      && Nat.eqb (List.length (filter (fun e => match e with EReturn _ => true | _ => false end)
+                                 (flat_map (subexprs depth_fuel) b))) 2
   | _, _, _, _ => false
   end.
 
